@@ -542,3 +542,19 @@ PROPS["C37"] = dict(
     trusted_base=MIR_TB,
     mir=True,
 )
+
+
+PROPS["C34"] = dict(
+    title="Transaction validation enforces exactly the configured limits",
+    functions=["radix_transactions::validation::TransactionValidator::{validate_header_v1, "
+               "validate_transaction_header_v2, validate_intent_header_v2}",
+               "radix_transactions::validation::AcrossIntentAggregation::update_headers", "radix_common::types::Epoch::after"],
+    bounds="every header field value (u8 network, u64 epochs, u16 / u32 tips, optional i64 timestamps), every value of "
+           "the configuration fields involved (required network or none, min/max tip percentage and basis points, "
+           "max_epoch_range), an arbitrary non-empty running aggregation window",
+    outside="message / instruction / blob / reference / signature counts and the subintent tree (they need prepared "
+            "transactions and hash-keyed maps), record_reference_count / finalize, the preparation settings",
+    assumptions=["the aggregation holds non-empty windows before the step (what update_headers maintains)"],
+    trusted_base=MIR_TB,
+    mir=True,
+)
